@@ -55,6 +55,7 @@ ASSUMPTIONS = [
     'judged as an append; the dataset must still equal the model afterwards',
 ]
 ALL_KINDS = F.KINDS
+PART_KINDS = ('pstr', 'pint', 'pbool', 'pnum', 'pfloat', 'pts', 'pcat')
 SIMPLE = '/w/ds.parq'
 
 
@@ -71,6 +72,8 @@ def generate(seed, idx, tier):
     # partition columns are called just that
     shape = gen_shape(rng, max_parts=0 if scheme == 'simple' else 2,
                       col_kinds=ALL_KINDS,
+                      part_kinds=('pstr', 'pint', 'pbool', 'pnum')
+                      if scheme == 'drill' else PART_KINDS,
                       part_prefix='dir' if scheme == 'drill' else 'p')
     if scheme == 'drill' and not shape['parts']:
         scheme = 'hive'
@@ -86,7 +89,7 @@ def generate(seed, idx, tier):
     nsteps = rng.randrange(1, 7)
     multi = scheme != 'simple'
     with_removals = multi and rng.random() < 0.33
-    with_faults = scheme == 'hive' and rng.random() < 0.25
+    with_faults = scheme in ('hive', 'simple') and rng.random() < 0.25
     batch = 0
     for _ in range(nsteps):
         batch += 1
@@ -111,8 +114,9 @@ def generate(seed, idx, tier):
         o.update(gen_wopts(rng, f['nrows'], has_cat, knobs))
         if o['op'] == 'failed_append':
             o['at'] = rng.random()
-            o['kind'] = rng.choice(('eio', 'enospc_partial', 'eio',
-                                    'crash'))
+            o['kind'] = rng.choice(('eio', 'enospc_partial', 'interrupt',
+                                    'crash') if scheme == 'hive' else
+                                   ('eio', 'enospc_partial', 'interrupt'))
         ops.append(o)
     if not any(o['op'] == 'append' for o in ops):
         batch += 1
@@ -257,6 +261,16 @@ def execute(case):
                     if m and m > 1:
                         plan = {1 + int(op['at'] * (m - 1)) % (m - 1):
                                 op['kind']}
+                    elif not multi:
+                        # single file: interrupt one of the append's writes
+                        # (an error, disk full or cancellation - not a
+                        # process death: nothing can be promised for that
+                        # without journalling); the old footer must come back
+                        ws = [e[3]['k'] for e in probe.log
+                              if e[1] == 'write']
+                        if ws:
+                            plan = {ws[int(op['at'] * len(ws)) % len(ws)]:
+                                    op['kind']}
                 seq0 = fs.seq
                 fs.sync_point()
                 fs.begin_op(plan, fault_rng=drng)
@@ -269,6 +283,10 @@ def execute(case):
                     err = e
                     fs.resolve_crash(drng)
                     long_pf = None if long_pf is None else 'reopen'
+                except KeyboardInterrupt as e:
+                    if not fs.fired:
+                        raise
+                    err = e
                 except Exception as e:
                     err = e
                 for f in fs.fired:
